@@ -128,7 +128,7 @@ def run_pack(prop, cases, grounds=(), bounded=(), *, tier="quick", seed=0, assum
         try:
             for tup in g.fn():
                 gid, ok, detail = tup[:3]
-                ground_results.append({"id": f"{g.unit}/{gid}", "clause": "ground", "kind": "prove", "status": "discharged" if ok else "refuted", "backend": tup[3] if len(tup) > 3 else "ground-evaluation", "seconds": 0.0, "detail": detail, "info": {}, "model": {}, "_ground": g})
+                ground_results.append({"id": f"{g.unit}/{gid}", "clause": "ground", "kind": "prove", "status": "discharged" if ok is True else ("unknown" if ok is None else "refuted"), "backend": tup[3] if len(tup) > 3 else "ground-evaluation", "seconds": 0.0, "detail": detail, "info": {}, "model": {}, "_ground": g})
         except loader.BindingError as e:
             engine_errors.append((g.unit, "ground", f"BindingError: {e}", ""))
         except Exception as e:  # noqa
